@@ -43,4 +43,13 @@ let () =
                              | _ -> failwith "bad named") (S.split_on_char '+' named) in
         let lookup e = (try Some (L.assoc e tbl) with Not_found -> None) in
         enc_str (TextDecode.decode_text lookup (dec_str t))
-    | _ -> "ERR args")
+    | _ -> "ERR args");
+  (* wxscan <body followed by the closing single quote> : S<decoded> when the literal ends exactly at the end, else E *)
+  register "wxscan" (function
+    | [t] ->
+        (match WxStr.wx_str_decode (n_of_int 39) (dec_str t) with
+         | Some (v, []) -> "V" ^ enc_str v
+         | Some (_, _) -> "E"
+         | None -> "E")
+    | _ -> "ERR args");
+  register "wx_lit_str" (function [s] -> enc_str (WxStr.wx_lit_str (dec_str s)) | _ -> "ERR args")
